@@ -23,6 +23,8 @@ def make_conv(aps, rows, unit):
     c.apertures = (np.array(aps, dtype=float) * u.au).to(getattr(u, unit))
     c.flux = np.array(rows, dtype=float) * u.mJy
     c.error = np.array([rows[(r + 1) % n] for r in range(n)], dtype=float) * u.mJy
+    if (len(aps) + n) % 2:
+        c.error = c.error.to(u.Jy)            # the error column may be held in another unit than the flux column
     return c
 
 
